@@ -429,7 +429,7 @@ def first_match_rule(ctx, chk, rule):
                        "'UTC+05:45') replaces the earlier, more specific one",
                        key={"function": f.key, "construct": "first match leaves the loop"}, file=f.file, function=f.qual, line=t.lineno,
                        text=" ".join(ast.unparse(t.test).split())[:80])
-    chk.floor(rule, n, 3, "scans of the ordered timezone table")
+    chk.floor(rule, n, 2, "scans of the ordered timezone table")
 
 
 
